@@ -153,7 +153,7 @@ fn generate_serialize_variant_arm(
     has_lifetimes: bool,
 ) -> Result<TokenStream2, Error> {
     let variant_name = &variant.ident;
-    let qualified_name = format!("{interface}.{variant_name}");
+    let qualified_name = format!("{interface}.{}", variant_wire_name(variant));
 
     match &variant.fields {
         // Unit variant - serialize as tagged enum with just error field.
@@ -255,10 +255,10 @@ fn generate_deserialize_with_derive(
     // Now modify the variants.
     for (i, variant) in modified_enum.variants.iter_mut().enumerate() {
         let field_info = &variant_field_info[i];
-        let variant_name = &variant.ident;
-        let qualified_name = format!("{interface}.{variant_name}");
+        let qualified_name = format!("{interface}.{}", variant_wire_name(variant));
 
         // Add rename attribute for the variant.
+        variant.attrs.retain(|attr| !attr.path().is_ident("zlink"));
         variant
             .attrs
             .push(parse_quote!(#[serde(rename = #qualified_name)]));
@@ -355,6 +355,11 @@ fn generate_deserialize_with_derive(
             }
         }
     })
+}
+
+/// The error name of a variant: `#[zlink(rename = "...")]` if given, the variant's identifier otherwise.
+fn variant_wire_name(variant: &syn::Variant) -> String {
+    parse_zlink_string_attr(&variant.attrs, "rename").unwrap_or_else(|| variant.ident.to_string())
 }
 
 /// Field information extracted from named fields for reuse across
